@@ -83,6 +83,18 @@ func zzScopeProgram(sv *zzsv.T, k int, clash string, arr *zzExpr) *zzProg {
 			main: []*zzStmt{stSet("r", xCall("f", N)), stT(xVar("a")), stT(xVar("b")), stRet(xVar("r"))}}
 	case 11: // top-level foreach variable is bound for the loop only
 		return &zzProg{main: []*zzStmt{stEach("", clash, arr, stT(xVar(clash))), stT(xVar("a")), stT(xVar("b")), stRet(xVar(clash))}}
+	case 12: // the index variable of a foreach clashes with a parameter
+		return &zzProg{funcs: []*zzFunc{{name: "f", params: []string{clash}, body: []*zzStmt{
+			stEach(clash, "v", arr, stT(xVar("v"))), stRet(xVar(clash))}}},
+			main: []*zzStmt{stSet("r", xCall("f", N)), stT(xVar("a")), stT(xVar("b")), stRet(xVar("r"))}}
+	case 13: // a callee's loop variables clash with the caller's running loop
+		return &zzProg{funcs: []*zzFunc{{name: "g", params: []string{"p"}, body: []*zzStmt{
+			stEach("i", "v", arr, stSet("p", xBin("+", xVar("p"), xVar("i")))), stRet(xVar("p"))}}},
+			main: []*zzStmt{stEach("i", "v", arr, stSet("r", xCall("g", xVar("v"))), stT(xVar("i")), stT(xVar("v")), stT(xVar("r"))), stT(xVar("a")), stRet(xVar(clash))}}
+	case 14: // a local declared after the loop variable of the same name went out of scope
+		return &zzProg{funcs: []*zzFunc{{name: "f", params: []string{"p"}, body: []*zzStmt{
+			stLocal(clash), stSet(clash, xVar("p")), stEach(clash, "v", arr, stT(xVar(clash))), stRet(xVar(clash))}}},
+			main: []*zzStmt{stSet("r", xCall("f", N)), stT(xVar("a")), stT(xVar("b")), stRet(xVar("r"))}}
 	default: // a function without return used as a statement: nothing comes back
 		return &zzProg{funcs: []*zzFunc{{name: "f", params: []string{"p"}, body: []*zzStmt{stSet("g", xVar("p"))}}},
 			main: []*zzStmt{stCall("f", N), stCall("f", xBin("+", N, xLit(1))), stRet(xVar("g"))}}
@@ -93,7 +105,7 @@ func zzScopeProgram(sv *zzsv.T, k int, clash string, arr *zzExpr) *zzProg {
 // variables of the same names have their old values, the callee's are gone,
 // other assignments are global.
 func ZZ_C06_Scopes(sv *zzsv.T) {
-	k := sv.Choice("scenario", 13)
+	k := sv.Choice("scenario", 16)
 	clash := []string{"a", "b"}[sv.Choice("clash", 2)]
 	vars := map[string]zv{"a": zInt(sv.Int64("a")), "b": zInt(sv.Int64("b"))}
 	order := []string{"a", "b"}
